@@ -189,3 +189,16 @@ func checkC06(w *Worker, cr *CaseResult, ir *InstResult) *Violation {
 	}
 	return nil
 }
+
+// checkC06attr is checkC06 for attribution: a sub-program that makes no
+// evaluation-order / laziness error but computes a wrong value explains a
+// differing trace of its consumers (arguments are part of the trace).
+func checkC06attr(w *Worker, cr *CaseResult, ir *InstResult) *Violation {
+	if v := checkC06(w, cr, ir); v != nil {
+		return v
+	}
+	if v := checkC04(w, cr, ir); v != nil {
+		return &Violation{Clause: "value-defect", Backend: v.Backend}
+	}
+	return nil
+}
